@@ -19,3 +19,13 @@ Definition burst32 (l l' : list N) : Prop := within32 (diff_bits l l').
 
 (* value of a bit string read LSB first *)
 Fixpoint bval (w : list bool) : N := match w with [] => 0 | b :: t => N.b2n b + 2 * bval t end.
+
+(* the other reading of "contiguous bits": most significant bit first within each byte *)
+Definition bits_of_byte_msb (x : N) : list bool := map (N.testbit x) [7; 6; 5; 4; 3; 2; 1; 0].
+Definition bits_of_bytes_msb (l : list N) : list bool := flat_map bits_of_byte_msb l.
+Definition diff_bits_msb (l l' : list N) : list bool := xorl (bits_of_bytes_msb l) (bits_of_bytes_msb l').
+(* l' differs from l only inside 32 contiguous bits, bits numbered MSB first within bytes *)
+Definition burst32_msb (l l' : list N) : Prop := within32 (diff_bits_msb l l').
+(* decidable form of within32 for a given window start *)
+Definition within32b (e : list bool) (p : nat) : bool :=
+  forallb (fun i => implb (nth i e false) ((p <=? i)%nat && (i <? p + 32)%nat)) (seq 0 (length e)).
